@@ -122,7 +122,8 @@ def shard(ctx):
             run_case(ctx, iso3, dict(options, MINIMUM_PERCENT_FED_BEFORE_NONHUMAN_CONSUMPTION_ALLOWED=T2), "c03b_%d_%d" % (ctx.shard, ctx.evaluations))
     drive(ctx, strategy(), body, 100 if thorough else 20, shrink=False, tag="runs")
     # the extremes of the input table are always run (absolute thresholds and tolerances bite at the smallest rows), two thresholds
-    model.run_fixed(ctx, model.extreme_cases(thresholds=(100.0, 2.5)), lambda iso, o, k: (ctx.count(), run_case(ctx, iso, o, "c03x_%s" % iso)))
+    model.run_fixed(ctx, model.extreme_cases(thresholds=(100.0, 2.5)) + model.extreme_cases_wide(bundles=(3, 1)),
+                    lambda iso, o, k: (ctx.count(), run_case(ctx, iso, o, "c03x_%s" % iso)))
     if thorough:
         isos = model.iso3_list()
         climates = [dict(), dict(crop_disruption="country_nuclear_winter", grasses="country_nuclear_winter", fish="nuclear_winter")]
